@@ -194,6 +194,12 @@ func (c *c02Checker) engineItem(it c02Item, mod *ast.Module, route *ast.Route) {
 		c.res.Count("typed_input_programs_judged_at_http_level_only", 1)
 		return
 	}
+	if route.ReturnType != nil {
+		// likewise the declared return type: the interpreter checks it inside
+		// ExecuteRoute, compiled mode in the handler (validateCompiledReturn)
+		c.res.Count("typed_return_programs_judged_at_http_level_only", 1)
+		return
+	}
 	serve, code, _ := c02CompileModule(mod)
 	switch serve {
 	case c02Fallback:
